@@ -1,0 +1,24 @@
+//go:build verif
+
+package shape
+
+import "github.com/trajectoryjp/spatial_id_go/v4/common/spatial"
+
+// Verification hooks: export unexported helpers for the /verif correspondence harness.
+// Compiled only with -tags verif.
+
+func VerifHorizontalTileIdOnPoint(lon, lat float64, hZoom int64) string {
+	return getHorizontalTileIdOnPoint(lon, lat, hZoom)
+}
+
+func VerifVerticalTileIdOnAltitude(alt float64, vZoom int64) string {
+	return getVerticalTileIdOnAltitude(alt, vZoom)
+}
+
+func VerifExtendedSpatialIdAttrs(id string) ([]int64, error) {
+	return getExtendedSpatialIdAttrs(id)
+}
+
+func VerifMiddleSpatialIds(start, end spatial.Point3, hZoom, vZoom int64, lonMinima, latMinima, altMinima float64, operate func(string)) {
+	middleSpatialIds(start, end, hZoom, vZoom, lonMinima, latMinima, altMinima, operate)
+}
